@@ -32,6 +32,7 @@ pub struct Api {
     pub block_of: unsafe extern "C" fn(*const u8, *mut usize) -> i32,
     pub run_import: unsafe extern "C" fn(u32),
     pub call_export: unsafe extern "C" fn(u32, *const (), *const u64, *mut u64),
+    pub set_flags: unsafe extern "C" fn(u32),
 }
 
 #[derive(Clone, Copy)]
@@ -80,6 +81,7 @@ impl Lib {
             block_of: sym!("verif_block_of"),
             run_import: sym!("verif_run_import"),
             call_export: sym!("verif_call_export"),
+            set_flags: sym!("verif_set_flags"),
         };
         Ok(Lib { handle, api })
     }
@@ -423,8 +425,10 @@ impl Host {
         rep.guest_allocs = unsafe { (api.serial)() } - serial0;
     }
 
-    pub fn run_case(&mut self, fi: usize, dir: &Dir, v1: &Val, v2: &Val) -> CaseReport {
+    /// `spare`: user code builds its vectors and strings with spare capacity in this case.
+    pub fn run_case(&mut self, fi: usize, dir: &Dir, v1: &Val, v2: &Val, spare: bool) -> CaseReport {
         let api = self.lib.api;
+        unsafe { (api.set_flags)(if spare { 2 } else { 0 }) };
         let f = &self.funcs[fi];
         let ty = f.ty.clone();
         let mut rep = CaseReport { features: features(&ty, v1), ..Default::default() };
